@@ -137,7 +137,7 @@ NextMsg == Cardinality({i \in 1..Len(taken) : taken[i] # DISC}) + 1
 Clause ==
     CASE Ev.e = "SrvRecvCall" ->
             IF mq = 0 THEN "P:pull_without_receive"
-            ELSE IF wpc \in {"closing", "closed"} \/ ppc \in Ended THEN "P:left_running"
+            ELSE IF wpc \in {"closing", "closed"} \/ ppc \in {"cancelled", "failed"} THEN "P:left_running"
             ELSE IF disc THEN "P:pull_after_disconnect"
             ELSE IF inhand # NIL THEN "P:bound"
             ELSE "P:pull"
